@@ -185,4 +185,17 @@ PROPS = {
                        'the state of round k-1 - is a cross-thread protocol (IterationStateLock, barrier, UnsafeCell) and is NOT decided.',
         'assumptions': ['stale/newer state reads across threads and hosts: not decided', 'Replay::next / Iterate::next (block on selects and barriers), nested-loop restart: not under contract'],
     },
+    'C11': {
+        'level': 'proof',
+        'units': [
+            {'engine': 'verus', 'name': 'binary_select', 'tier': 'quick', 'role': 'BinaryStartReceiver::{select, process_side}, SideReceiver::{recv, reset, is_ended, is_terminated, cache_finished, next_cached_item}, SimpleStartReceiver::{recv, recv_timeout}, StreamElement::map + history lemma lemma_rounds'},
+        ],
+        'explanation': 'Verus proof of the side-input cache of the two-input receiver, for any number of replicas, batches and rounds and any interleaving of the two links and timeouts: '
+                       'the cached side is read from its producers only until its cache is full (never again afterwards) and the cache is then frozen; in the first round what is delivered is exactly '
+                       'what is cached, batch by batch, each batch being the wrapped image of the batch read (Terminate kept out, end marker before the last FlushAndRestart); in every later round '
+                       'the batches delivered from the cached side are cache[0], cache[1], ... in order, one per call, and a new round starts only after the whole cache was replayed (lemma_rounds: '
+                       'induction over any sequence of calls); the outside stream\'s Terminate markers are re-synthesised only when both sides are terminated. '
+                       'NOT decided: that the loop terminates (liveness), the interplay with Start\'s own marker counters, and binary_connection choosing which side is cached.',
+        'assumptions': ['R-CHAN / R-PROTO environment contracts of the links (see unit assumptions)', 'termination of the loop and marker accounting in Start::next across rounds: not decided here (Start::next is under contract in unit start_next for a single-input receiver model)'],
+    },
 }
